@@ -1,5 +1,5 @@
 (* C09 - ValidReplayer replays exactly the unexpired events after the given ID. *)
-From GoSse Require Import Base Fields Queue Replayers Fifo FifoFacts ReplayersProofs ReplayersTop.
+From GoSse Require Import Base Fields Queue Replayers Fifo FifoFacts ReplayersProofs ReplayersTop FifoSuffix.
 From Coq Require Import Sorted.
 
 (* Refinement: every TTL > 0, every GCInterval (default, 0, smaller or larger than the TTL),
@@ -70,3 +70,24 @@ Example C09_example_expiry :
   | None => False
   end.
 Proof. vm_compute. reflexivity. Qed.
+
+(* What the ValidReplayer specification stores is, at every moment, the last k accepted puts for some k: whatever the
+   clock readings, collections (explicit, Put-triggered) and interval assignments of the history, only a PREFIX of the
+   accepted entries is ever dropped.  (The FiniteReplayer counterpart is C08: [fs_l = lastn N accepted].)  This is the
+   one shape the end-to-end composition needs of a replayer (C05_end_to_end_any_suffix_replayer). *)
+Theorem C09_stores_a_suffix_of_the_accepted_puts :
+  forall ttl auto gci ops,
+  let s := vs_after (vs_new ttl auto gci) ops in
+  vs_l s = lastn (length (vs_l s)) (vs_accepted (vs_new ttl auto gci) ops).
+Proof. exact valid_is_lastn. Qed.
+
+Theorem C09_suffix_invariant :
+  forall ops s hist, is_suffix (vs_l s) hist -> is_suffix (vs_l (vs_after s ops)) (hist ++ vs_accepted s ops).
+Proof. exact vs_holds_a_suffix_facts. Qed.
+
+Example C09_example_suffix :
+  (* three puts at 0, 5, 20 (ttl 10); a GC at 12 drops the first; the store is the last two accepted *)
+  let ops := [VPut 0 None 1 [[]]; VPut 5 None 2 [[]]; VGC 12; VPut 20 None 3 [[]]] in
+  map e_tok (vs_l (vs_after (vs_new 10 true (Some 0%Z)) ops)) = [2; 3]%N /\
+  map e_tok (vs_accepted (vs_new 10 true (Some 0%Z)) ops) = [1; 2; 3]%N.
+Proof. vm_compute. split; reflexivity. Qed.
